@@ -73,6 +73,11 @@ CLAIMED = {
    technique="stateless model checking: exhaustive interleaving exploration (deviation bound 1 quick / 2 thorough) of every pair of public entry points for deadlock, livelock, panic and non-returning calls; data races by the Go race detector on free-running executions of the same bodies",
    text="Entry points come from the method sets of *EngineFacade, interfaces.Transaction, interfaces.CompactionManager and stats.Collector by reflection (a method without body or recorded exclusion is a HARNESS-ERROR, so new methods cannot be silently uncovered). All unordered pairs of 22 engine-level bodies, all pairs of 7 transaction methods on one shared transaction, transaction methods against engine traffic and 4 triples run on an engine with 2 level-0 files, a pending immutable table and a live background flush thread. Pass 1 explores every interleaving with <=1 (2) deviations: deadlock (no enabled thread, witness = blocked threads and sites), livelock, panic, step horizon or an unusable engine is a violation. Pass 3 runs the same bodies free-running in a -race build (5 / 60 iterations per group): any race report outside Close, panic, fatal error or 60 s hang is a violation, fingerprinted by the two racing functions.",
    note="The race clause is decided by the happens-before race detector on sampled free-running schedules (its verdict does not depend on the accesses actually overlapping, only on the absence of synchronisation between them), not by the exhaustive pass; a cooperative scheduler's hand-offs would blind the detector. Close concurrent with other calls (including the engine's own background flush) is out of scope."),
+ "C20": dict(
+   level="exploration", design="§3 C20",
+   technique="exhaustive boundary-value enumeration of configurations against an independently written constraint table; exhaustive truncation, single-byte damage and crash-cut enumeration of the stored manifest, opened by the real engine",
+   text="For 3 valid base configurations every single-field deviation, every pair of fields over their boundary values and the full warning x critical product are validated, saved and loaded: Validate accepts iff the documented table does, a rejected configuration makes SaveManifest fail with zero recorded file-system calls, an accepted one round-trips in every field. A database created with an all-non-default configuration must run with it (also after reopen); every truncation, every single-byte damage x 5 classes and every crash cut / torn write of a manifest update over existing data must make opening fail with an error or run with the stored (old or new) configuration, never with defaults.",
+   note="A damaged byte that yields another valid configuration is undetectable without a checksum and not flagged. A missing manifest means a new database."),
 }
 
 ALL = ["C%02d" % i for i in range(1, 21)]
